@@ -111,6 +111,8 @@ def parseTx (t : List String) : Option Tx :=
       let pk := if pk == "ok" then some ProofKind.ok else if pk == "none" then some .none else if pk == "bad" then some .bad else if pk == "false" then some .plainFalse
         -- signatures of the first k validators of another BitXHub (registered in the world option hub=1; a hub registered by
         -- governance inside a history is not followed by the model: the comparison of such a history has ended by then)
+        -- msigd<k>: one validator signing k times counts once
+        else if pk.startsWith "msigd" then ((pk.drop 5).toNat?.map (fun k => ProofKind.msig (min k 1)))
         else if pk.startsWith "msig" then ((pk.drop 4).toNat?.map ProofKind.msig) else none
       -- a destination whose chain id equals its BitXHub id addresses a hub-level (inter-broker) service: outside the model
       let hubSvc := match parseSvc to with | some d => d.chain == d.bxh | none => false
